@@ -489,11 +489,67 @@ def c13_cases(tier):
 
 
 # ===========================================================================
+# C04 / C05 constructor clause: every way of obtaining a SolutionTracks from a forest
+
+def ctor_case(case):
+    from funtracks.data_model import SolutionTracks, Tracks
+    from . import oracles
+    kind, seed_j, mode = case
+    seed = worlds.seed_from_json(seed_j)
+    g = nx.DiGraph()
+    for n, (t, _r) in seed["nodes"].items():
+        g.add_node(n, time=t, pos=[float(n), float(t)])
+    g.add_edges_from(seed["edges"])
+    segs = sorted(worlds.segments(g), key=min)
+    comps = sorted(worlds.components(g), key=min)
+    given_t = {n: 3 * i + 2 for i, sgm in enumerate(segs) for n in sgm}
+    given_l = {n: 2 * j for j, c in enumerate(comps) for n in c}  # lineage ids include 0
+    if mode in ("given", "from_tracks-given", "partial"):
+        for n in g.nodes:
+            g.nodes[n]["track_id"] = given_t[n]
+            g.nodes[n]["lineage_id"] = given_l[n]
+    if mode == "partial" and len(g.nodes) >= 2:
+        last = sorted(g.nodes)[-1]
+        del g.nodes[last]["track_id"]
+        del g.nodes[last]["lineage_id"]
+    try:
+        if mode in ("compute", "given"):
+            tr = SolutionTracks(g, ndim=3)
+        else:
+            base = Tracks(g, ndim=3, tracklet_attr="track_id", lineage_attr="lineage_id") if False else Tracks(g, ndim=3)
+            tr = SolutionTracks.from_tracks(base)
+    except Exception as e:  # noqa: BLE001
+        return [vio(p, "construct-raises", f"{mode}: {type(e).__name__}: {e}", case, "constructor", mode) for p in ("C04", "C05")]
+    out = []
+    for p, f in (("C04", oracles.inv_c04), ("C05", oracles.inv_c05)):
+        for clause, detail in f(tr)[:2]:
+            out.append(vio(p, clause, f"{mode}: {detail}", case, "constructor", mode))
+    for clause, detail in oracles.inv_c06(tr)[:2]:
+        out.append(vio("C06", clause, f"{mode}: {detail}", case, "constructor", mode))
+    if mode in ("given", "from_tracks-given"):
+        ch = {n: (given_t[n], tr.get_track_id(n)) for n in g.nodes if tr.get_track_id(n) != given_t[n]}
+        if ch:
+            out.append(vio("C04", "constructor-changed-given-ids", f"{mode}: track ids given -> stored {ch}", case, "constructor", mode))
+        ch = {n: (given_l[n], tr.get_lineage_id(n)) for n in g.nodes if tr.get_lineage_id(n) != given_l[n]}
+        if ch:
+            out.append(vio("C05", "constructor-changed-given-ids", f"{mode}: lineage ids given -> stored {ch}", case, "constructor", mode))
+    return out
+
+
+def ctor_cases(tier):
+    q = tier == "quick"
+    for seed in worlds.forests(4 if q else 5, 3 if q else 4, 0):
+        sj = worlds.seed_to_json(seed)
+        for mode in ("compute", "given", "from_tracks", "from_tracks-given", "partial"):
+            yield ("ctor", sj, mode)
+
+
+# ===========================================================================
 # driver
 
 CASE_FNS = {
     "c17": c17_case, "c19u": c19_unique_case, "c19r": c19_relabel_case,
-    "c18p": c18_points_case, "c18s": c18_seg_case, "c13": c13_case,
+    "c18p": c18_points_case, "c18s": c18_seg_case, "c13": c13_case, "ctor": ctor_case,
 }
 
 
